@@ -51,3 +51,8 @@ Theorem C36_oracle_on_model_str : forall s, Forall (fun b => b < 256) s ->
   oracle (CStr s, OStr (sql_quote s) (hex_encode s) true s) = true.
 Proof. exact oracle_on_model_str. Qed.
 Print Assumptions C36_oracle_on_model_str.
+
+(* ---- round 3 ---- *)
+Theorem C36_dec_fmt_roundtrip : forall x, Forall (fun d => d < 10) (d_frac x) -> parse_dec (fmt_dec x) = Some x.
+Proof. exact dec_fmt_roundtrip. Qed.
+Print Assumptions C36_dec_fmt_roundtrip.
